@@ -29,13 +29,34 @@ AXIS_NAMES = {'COL': set(['COL', 'XORIG', 'XCELL', 'NCOLS']), 'ROW': set(['ROW',
 REQUIRED = {'COL': ['XORIG'], 'ROW': ['YORIG'], 'LAY': ['VGLVLS'], 'TSTEP': ['SDATE', 'STIME', 'TSTEP']}
 
 
-def key_tests(test):
-    """dimension keys K for which the test contains 'K' in <kwds-like name>"""
+def key_tests(test, names=None):
+    """dimension keys K for which the test contains 'K' in <kwds-like name>, directly or through a local name bound to such a test
+    (hascol = 'COL' in dimslices) or to the selector itself (sel = dimslices.get('LAY'))"""
     out = []
     for n in ast.walk(test):
         if isinstance(n, ast.Compare) and len(n.ops) == 1 and isinstance(n.ops[0], ast.In) and const_str(n.left) \
                 and isinstance(n.comparators[0], ast.Name) and n.comparators[0].id in ('kwds', 'dimslices'):
             out.append(const_str(n.left))
+        if names and isinstance(n, ast.Name) and n.id in names:
+            out.append(names[n.id][0])
+        if isinstance(n, ast.Call) and isinstance(n.func, ast.Attribute) and n.func.attr == 'get' and isinstance(n.func.value, ast.Name) \
+                and n.func.value.id in ('kwds', 'dimslices') and n.args and const_str(n.args[0]):
+            out.append(const_str(n.args[0]))
+    return out
+
+
+def key_names(fn):
+    """local names that stand for 'K given' (kind 'in') or for the selector of K itself (kind 'get')"""
+    out = {}
+    for st in iter_stmts(fn.body):
+        if isinstance(st, ast.Assign) and len(st.targets) == 1 and isinstance(st.targets[0], ast.Name):
+            v = st.value
+            if isinstance(v, ast.Compare) and len(v.ops) == 1 and isinstance(v.ops[0], ast.In) and const_str(v.left) \
+                    and isinstance(v.comparators[0], ast.Name) and v.comparators[0].id in ('kwds', 'dimslices'):
+                out[st.targets[0].id] = (const_str(v.left), 'in')
+            if isinstance(v, ast.Call) and isinstance(v.func, ast.Attribute) and v.func.attr in ('get', 'pop') and isinstance(v.func.value, ast.Name) \
+                    and v.func.value.id in ('kwds', 'dimslices') and v.args and const_str(v.args[0]):
+                out[st.targets[0].id] = (const_str(v.args[0]), 'get')
     return out
 
 
@@ -71,12 +92,9 @@ def run(ctx):
             last_update = st
     if last_update is None:
         raise AnalysisError('anchor vanished: closing outf.updatemeta() in ioapi_base.sliceDimensions')
-    handlers = {}
-    for st in iter_stmts(fn.body):
-        if isinstance(st, ast.If):
-            for k in key_tests(st.test):
-                if k in REQUIRED and k not in handlers:
-                    handlers[k] = st
+    handlers = find_handlers(fn)
+    kn = key_names(fn)
+    handler_guard_rules(ctx, fn, handlers, kn)
     for dk, attrs in sorted(REQUIRED.items()):
         h = handlers.get(dk)
         if h is None:
@@ -101,7 +119,7 @@ def run(ctx):
         origin, cell = SLOTS[dk]
         other = AXIS_NAMES['ROW' if dk == 'COL' else 'COL']
         mentioned = set()
-        for n in ast.walk(h):
+        for n in [x for part in [h.test] + h.body for x in ast.walk(part)]:
             if isinstance(n, ast.Constant) and isinstance(n.value, str):
                 mentioned.add(n.value)
             if isinstance(n, ast.Attribute):
@@ -254,17 +272,40 @@ def run(ctx):
                     {'h': 'hours', 'm': 'minutes', 's': 'seconds'}[bad[0][1]], bad[0][0], bad[0][2], bad[0][3])))
             else:
                 ctx.ok('R-HMSENC', norm(st)[:60], where, 'hours*10000 + minutes*100 + seconds')
-    ctx.floor('georeferencing handlers', len(handlers), 4)
+    if not any(o.get('rule') == 'R-GEOHANDLERS' and o.get('status') == 'violated' for o in ctx.obligations):
+        ctx.floor('georeferencing handlers', len(handlers), 4)
     ctx.assumptions.append('np.arange(n)[selector] resolves negative integers and slices against length n (numpy indexing)')
 
 
+def handler_guard_rules(ctx, fn, handlers, kn):
+    # a handler must run whenever its dimension is selected: not under the truth value of the selector (0 is a layer), and not as an
+    # alternative (elif) of the handler of another dimension
+    for dk, h in sorted(handlers.items()):
+        t = h.test
+        bare = [n for n in ast.walk(t) if isinstance(n, ast.Name) and n.id in kn and kn[n.id] == (dk, 'get')]
+        truthy = [n for n in bare if not any(isinstance(p, ast.Compare) and n in list(ast.walk(p)) for p in ast.walk(t))]
+        if truthy:
+            ctx.violation(Finding('R-GEOHANDLERS', RP, Q, h, 'the %s handler runs only when the selector itself is truthy (%s): the integer 0 - the first layer/row/column/step - is a valid '
+                                  'selection and is skipped, so %s keep the source values' % (dk, norm(t)[:40], '/'.join(REQUIRED[dk]))), oid=dk + ':truthy')
+        par = getattr(h, '_parent', None)
+        if isinstance(par, ast.If) and h in par.orelse:
+            others = [k for k in key_tests(par.test, kn) if k != dk and k in REQUIRED]
+            deleting = any(isinstance(s2, ast.Delete) for s2 in par.body)
+            if others and not deleting:
+                ctx.violation(Finding('R-GEOHANDLERS', RP, Q, h, 'the %s handler is an alternative (elif) of the %s handler: when both dimensions are selected in one call only the first runs and %s '
+                                      'keep the source values' % (dk, others[0], '/'.join(REQUIRED[dk]))), oid=dk + ':elif')
+
+
 def find_handlers(fn):
+    """first If per dimension whose test depends on that dimension being selected *and* whose body stores one of its attributes"""
     handlers = {}
+    kn = key_names(fn)
     for st in iter_stmts(fn.body):
         if isinstance(st, ast.If):
-            for k in key_tests(st.test):
+            for k in key_tests(st.test, kn):
                 if k in REQUIRED and k not in handlers:
-                    handlers[k] = st
+                    if any(a in attr_stores(st.body) for a in REQUIRED[k]) or not kn:
+                        handlers[k] = st
     return handlers
 
 
@@ -281,6 +322,8 @@ def lay_rules(ctx, fn, h, where):
                     ar = [c for c in walk_expr(s.value) if isinstance(c, ast.Call) and (dotted(c.func) or '').endswith('arange')]
                     sel = [x for x in walk_expr(s.value) if isinstance(x, ast.Subscript) and isinstance(x.value, ast.Name)
                            and x.value.id in ('kwds', 'dimslices') and const_str(x.slice) == 'LAY']
+                    kn_ = key_names(fn)
+                    sel += [x for x in walk_expr(s.value) if isinstance(x, ast.Name) and kn_.get(x.id) == ('LAY', 'get')]
                     if ar and sel and ar[0].args:
                         lidx_name = nm
                         lidx_bound = to_poly(ar[0].args[0], env, atomize=_atom)
